@@ -553,6 +553,10 @@ func (c15) Gen(rng *rand.Rand, tier string, idx int) Case {
 	if rng.Intn(4) == 0 {
 		within = []int{2, 3, 5, 8}[rng.Intn(4)]
 		stat("within-set")
+		if rng.Intn(2) == 0 {
+			c.Cfg = append(c.Cfg, []string{"wfrac", "1"})
+			stat("within-fractional-number")
+		}
 	}
 	c.Cfg = append(c.Cfg, []string{"mode", mode}, []string{"rows", rowsTok}, append([]string{"skip"}, skip...),
 		[]string{"within", strconv.Itoa(within)}, []string{"cls", "t"}, append([]string{"pat"}, tree.tokens()...))
@@ -717,6 +721,7 @@ type c15conf struct {
 	sql, allRows bool
 	skip         []string
 	within       int
+	wfrac        bool // WITHIN written as a fractional number of microseconds
 	maxRows      int
 	tree         *c15pnode
 	defs         map[int][]c15atom
@@ -734,6 +739,8 @@ func c15parse(cfg [][]string) c15conf {
 			cf.skip = l[1:]
 		case "within":
 			cf.within, _ = strconv.Atoi(l[1])
+		case "wfrac":
+			cf.wfrac = true
 		case "maxrows":
 			cf.maxRows, _ = strconv.Atoi(l[1])
 		case "pat":
@@ -816,7 +823,10 @@ func (cf c15conf) sqlText() string {
 	}
 	q := "SELECT * FROM stream MATCH_RECOGNIZE (PARTITION BY p ORDER BY ts MEASURES " + strings.Join(ms, ", ") +
 		" " + rows + " AFTER MATCH SKIP " + skip + " PATTERN (" + cf.tree.sql() + ")"
-	if cf.within > 0 {
+	if cf.within > 0 && cf.wfrac && time.Duration(float64(cf.within)/1000*float64(time.Microsecond)) == time.Duration(cf.within) {
+		// the number + unit spelling with a fractional number: 0.005 US = 5 ns
+		q += " WITHIN " + strconv.FormatFloat(float64(cf.within)/1000, 'f', -1, 64) + " US"
+	} else if cf.within > 0 {
 		q += fmt.Sprintf(" WITHIN %d NS", cf.within)
 	}
 	if len(ds) > 0 {
